@@ -237,6 +237,30 @@ def cases(rng, which, count):
                     argv = ["extract"] + fl + ["--coordinates", cfile]
                 yield Case("cli_libf", [esc(fasta(er)), cfile + "=" + txt, "extract"] + argv[1:], True,
                            "cli-extract" + ("-gff" if "--gff" in fl else "") + ("-ref" if ref else "") + ("-translate" if "--translate" in fl else ""))
+            elif w == "pssm":
+                # `compute pssm`: counts, the four normalisations and the logo, pseudo-counts (values a float64 holds
+                # exactly), log2; 1-16 rows (sixteenths are ties of the three-decimal rounding), both alphabets,
+                # characters outside the alphabet (gaps, N, lower case), columns of one character
+                nr = rng.choice([1, 2, 3, 4, 5, 7, 8, 16, 16, 32])
+                k = rng.random()
+                if k < 0.25:
+                    pools = ["ARNDCQEGHILKMFPSTWYV", "ARNDCQEGHILKMFPSTWYV-X", "AR", "L", "arndEFILPQ*"]
+                else:
+                    pools = ["ACGT", "ACGT", "ACGT-", "ACGTacgtN-", "A", "AC", "-", "ACGTRY", "AAAC", "GGGGGGGT"]
+                cols = ["".join(rng.choice(c) for _ in range(nr)) for c in (rng.choice(pools) for _ in range(rng.randint(1, 12)))]
+                if k < 0.25:
+                    cols[0] = rng.choice("EFILPQ") + cols[0][1:]            # not a nucleotide alignment for the reader
+                pr = [("s%d" % i, "".join(c[i] for c in cols)) for i in range(nr)]
+                groups = []
+                if rng.random() < 0.4:
+                    groups.append([rng.choice(["-l", "--log"])])
+                if rng.random() < 0.5:
+                    groups.append([rng.choice(["-c", "--pseudo-counts"]), rng.choice(["0", "0.0", "1", "0.5", "0.25", "2", "1.5", "0.125", "3"])])
+                if rng.random() < 0.85:
+                    groups.append([rng.choice(["-n", "--normalization"]), str(rng.choice([0, 1, 1, 2, 2, 3, 3, 4, 4, 4] if rng.random() < 0.93 else [5, -1]))])
+                rng.shuffle(groups)
+                fl = [x for g in groups for x in g]
+                yield Case("cli_lib", [esc(fasta(pr)), "compute", "pssm"] + fl, True, "cli-pssm")
             elif w == "consensus":
                 fl = [f for f in ("--ignore-gaps", "--ignore-n") if rng.random() < 0.4]
                 yield Case("cli_lib", [st, "consensus"] + fl, True, "cli-consensus")
